@@ -50,6 +50,7 @@ type PCall struct {
 
 // Provider is a recording cloud provider with fault injection (request number Fault of the current op fails).
 type Provider struct {
+	G        *Gate
 	mu       sync.Mutex
 	N, Fault int
 	Log      []PCall
@@ -59,6 +60,7 @@ type Provider struct {
 func (p *Provider) Reset(fault int) { p.mu.Lock(); p.N, p.Fault = 0, fault; p.mu.Unlock() }
 
 func (p *Provider) AssignIP(in *rpc.AssignIPRequest) (*rpc.AssignIPReply, error) {
+	p.G.Hit("provider", "AssignIP "+in.IPAddress)
 	p.mu.Lock()
 	defer p.mu.Unlock()
 	p.N++
@@ -72,6 +74,7 @@ func (p *Provider) AssignIP(in *rpc.AssignIPRequest) (*rpc.AssignIPReply, error)
 }
 
 func (p *Provider) UnAssignIP(in *rpc.UnAssignIPRequest) (*rpc.UnAssignIPReply, error) {
+	p.G.Hit("provider", "UnAssignIP "+in.IPAddress)
 	p.mu.Lock()
 	defer p.mu.Unlock()
 	p.N++
@@ -108,6 +111,8 @@ type World struct {
 	Voided map[string]bool
 	// LastOp describes the op executed last (for monitors)
 	LastOp OpInfo
+	// Gate parks / records accesses (lock-exclusion probe, schedules); idle otherwise
+	Gate *Gate
 	// Snap is the checklist of a resync pass in progress (first phase done, iterations pending), by address
 	Snap map[uint32]schedulerplugin.VerifResyncEntry
 	// Mon is scratch space of the monitors (state they carry from step to step)
@@ -132,6 +137,8 @@ func NewWorld(conf Conf, rng *rand.Rand) (*World, error) {
 	w := &World{Conf: conf, Pools: conf.Pools, Rng: rng, Cnt: &Counter{}, nextUID: 1, Voided: map[string]bool{}, Mon: map[string]interface{}{}, Snap: map[uint32]schedulerplugin.VerifResyncEntry{},
 		Prov:   &Provider{Assigned: map[uint32]string{}},
 		podIdx: nsIndexer(), stsIdx: nsIndexer(), dpIdx: nsIndexer(), poolIdx: nsIndexer()}
+	w.Gate = &Gate{}
+	w.Cnt.G, w.Prov.G = w.Gate, w.Gate
 	var objs []runtime.Object
 	for _, n := range conf.Nodes {
 		objs = append(objs, &corev1.Node{ObjectMeta: metav1.ObjectMeta{Name: n.Name},
@@ -175,6 +182,7 @@ func (w *World) startPlugin() error {
 	if w.Conf.Provider {
 		p.VerifPluginSetCloudProvider(w.Prov)
 	}
+	p.VerifPluginWrapIPAM(func(i floatingip.IPAM) floatingip.IPAM { return &ipamDeco{i, w.Gate} })
 	w.Plugin = p
 	return nil
 }
